@@ -81,7 +81,11 @@ class Parent(AbstractParent):
 
         location_parent_type = location.parent_type if location is not None else None
         sequence_seqtype = sequence.sequence_type if sequence is not None else None
-        seq_type = _unique_value_or_none((sequence_type, location_parent_type, sequence_seqtype))
+        # "chromosome" and SequenceType.CHROMOSOME compare and hash equal, so both spellings share one entry of the caches
+        # above; store one canonical spelling so that the answer does not depend on which one was cached first
+        seq_type = SequenceType.sequence_type_str_to_type(
+            _unique_value_or_none((sequence_type, location_parent_type, sequence_seqtype))
+        )
 
         if location is not None:
             if strand and location.strand and strand is not location.strand:
